@@ -598,6 +598,18 @@ impl VariableType {
     }
 }
 
+/// A bound as source text: the infinities are the constants `Infinity` / `MinusInfinity`
+/// on either side (an infeasible model can derive the empty range `[Infinity, Infinity]`).
+fn display_bound(bound: f64) -> String {
+    if bound == f64::INFINITY {
+        "Infinity".to_string()
+    } else if bound == f64::NEG_INFINITY {
+        "MinusInfinity".to_string()
+    } else {
+        bound.to_string()
+    }
+}
+
 impl fmt::Display for VariableType {
     fn fmt(&self, f: &mut fmt::Formatter<'_>) -> fmt::Result {
         let s = match self {
@@ -606,29 +618,13 @@ impl fmt::Display for VariableType {
                 (0.0, f64::INFINITY) => "NonNegativeReal".to_string(),
                 _ => format!(
                     "NonNegativeReal({}, {})",
-                    min,
-                    if *max == f64::INFINITY {
-                        "Infinity".to_string()
-                    } else {
-                        max.to_string()
-                    }
+                    display_bound(*min),
+                    display_bound(*max)
                 ),
             },
             VariableType::Real(min, max) => match (*min, *max) {
                 (f64::NEG_INFINITY, f64::INFINITY) => "Real".to_string(),
-                _ => format!(
-                    "Real({}, {})",
-                    if *min == f64::NEG_INFINITY {
-                        "MinusInfinity".to_string()
-                    } else {
-                        min.to_string()
-                    },
-                    if *max == f64::INFINITY {
-                        "Infinity".to_string()
-                    } else {
-                        max.to_string()
-                    }
-                ),
+                _ => format!("Real({}, {})", display_bound(*min), display_bound(*max)),
             },
             VariableType::IntegerRange(min, max) => format!("IntegerRange({}, {})", min, max),
         };
